@@ -174,6 +174,89 @@ def simple_spec(rng, n=None):
     return gen_spec(rng, nsurf=n, allow=['plane', 'standard', 'conic'], mirrors=False, decenter=False)
 
 
+def spec_after_edits(spec, edits):
+    """the prescription a history of public setter calls [(kind, surface, value)] should leave behind"""
+    import copy
+    sp = copy.deepcopy(spec)
+    for k, si, v in edits:
+        sf = sp['surfaces'][si - 1]
+        if k == 'index':
+            sf['material'] = ['ideal', float(v), 0.0]
+        elif k == 'radius':
+            sf['radius'] = float(v)
+        elif k == 'thickness':
+            sf['thickness'] = float(v)
+        elif k == 'conic':
+            sf['conic'] = float(v)
+    return sp
+
+
+def prescription_problems(spec, optic, wavelength=None, edits=()):
+    """Is the lens object the prescription that was entered (after the recorded setter calls)?  Independent of how
+    the object was reached: vertex positions = running sums of the thicknesses, media continuous from one surface to
+    the next and equal to the entered index at the wavelength, radii and conics as entered.  Returns oracle entries."""
+    import numpy as np
+    sp = spec_after_edits(spec, edits) if edits else spec
+    w = wavelength if wavelength is not None else optic.primary_wavelength
+    ss = optic.surface_group.surfaces
+    bad = []
+    n_spec = len(sp['surfaces'])
+    if len(ss) != n_spec + 2:
+        return [{'kind': 'prescription', 'quantity': 'surface count', 'implementation': len(ss), 'entered': n_spec + 2}]
+
+    def nval(m):
+        return float(np.ravel(m.n(w))[0])
+
+    def close(a, b):
+        return (math.isinf(a) and math.isinf(b)) or abs(a - b) <= 1e-9 * (1 + abs(a) + abs(b))
+    # vertex positions (surfaces without an explicit decentre in z)
+    z = 0.0
+    for i, sf in enumerate(sp['surfaces']):
+        got = float(np.ravel(ss[i + 1].geometry.cs.z)[0])
+        if not close(got, z):
+            bad.append({'kind': 'prescription', 'quantity': f'vertex z of surface {i + 1}', 'implementation': got, 'entered': z})
+            break
+        z += float(sf['thickness'])
+    if not bad:
+        got = float(np.ravel(ss[-1].geometry.cs.z)[0])
+        if not close(got, z):
+            bad.append({'kind': 'prescription', 'quantity': 'vertex z of the image surface', 'implementation': got, 'entered': z})
+    # media: entered index behind every surface, and the same medium in front of the next surface
+    prev = float(sp['object_material'][1]) if sp.get('object_material') else 1.0
+    if not close(nval(ss[0].material_post), prev):
+        bad.append({'kind': 'prescription', 'quantity': 'index of the object space', 'implementation': nval(ss[0].material_post), 'entered': prev})
+    for i, sf in enumerate(sp['surfaces']):
+        m = sf.get('material', 'air')
+        if m == 'mirror':
+            exp = prev
+        elif m == 'air':
+            exp = 1.0
+        elif m[0] == 'ideal':
+            exp = float(m[1])
+        else:
+            from optiland.materials import Material
+            exp = float(np.ravel((Material(m[1]) if len(m) == 2 else Material(m[1], m[2])).n(w))[0])
+        pre, post = nval(ss[i + 1].material_pre), nval(ss[i + 1].material_post)
+        if not close(pre, prev):
+            bad.append({'kind': 'prescription', 'quantity': f'index in FRONT of surface {i + 1} (= behind surface {i})', 'implementation': pre, 'entered': prev})
+        if not close(post, exp):
+            bad.append({'kind': 'prescription', 'quantity': f'index behind surface {i + 1}', 'implementation': post, 'entered': exp})
+        prev = exp
+    pre = nval(ss[-1].material_pre)
+    if not close(pre, prev):
+        bad.append({'kind': 'prescription', 'quantity': 'index in front of the image surface (= behind the last surface)', 'implementation': pre, 'entered': prev})
+    # radii and conics
+    for i, sf in enumerate(sp['surfaces']):
+        g = ss[i + 1].geometry
+        R = float(sf.get('radius', INF))
+        got = float(getattr(g, 'radius', INF))
+        if not close(got, R):
+            bad.append({'kind': 'prescription', 'quantity': f'radius of surface {i + 1}', 'implementation': got, 'entered': R})
+        if 'conic' in sf and not math.isinf(R) and hasattr(g, 'k') and not close(float(g.k), float(sf['conic'])):
+            bad.append({'kind': 'prescription', 'quantity': f'conic of surface {i + 1}', 'implementation': float(g.k), 'entered': float(sf['conic'])})
+    return bad[:4]
+
+
 def build_via(spec, mode, rng):
     """the same prescription reached through another public route:
     'reuse'     - an Optic object that held a DIFFERENT lens before, emptied with reset() and filled again;
@@ -189,13 +272,20 @@ def build_via(spec, mode, rng):
             pass
         o.reset()
         return build(spec, optic=o)
+    if mode == 'handbuilt':
+        # some surfaces enter as ready-made Surface objects (add_surface(new_surface=...)), the rest from keywords
+        import copy
+        tmp = build(spec)
+        n = len(spec['surfaces'])
+        picks = set(rng.sample(range(1, n + 1), rng.choice([1, 1, 2]) if n > 1 else 1))
+        return build(spec, handbuilt={k: copy.deepcopy(tmp.surface_group.surfaces[k]) for k in picks})
     o = build(spec)
     if mode == 'roundtrip':
         o = Optic.from_dict(o.to_dict())
     return o
 
 
-def build(spec, optic=None):
+def build(spec, optic=None, handbuilt=None):
     import numpy as np
     from optiland.optic import Optic
     from optiland.materials import IdealMaterial, Material
@@ -223,6 +313,9 @@ def build(spec, optic=None):
             kw['aperture'] = RadialAperture(r_max=s['aperture'][0], r_min=s['aperture'][1])
         if s.get('coating'):
             kw['coating'] = SimpleCoating(s['coating'][0], s['coating'][1])
+        if handbuilt and (i + 1) in handbuilt:
+            o.add_surface(new_surface=handbuilt[i + 1], index=i + 1, thickness=s['thickness'])
+            continue
         o.add_surface(index=i + 1, surface_type=s.get('type', 'standard'), thickness=s['thickness'],
                       material=m, is_stop=bool(s.get('is_stop')), **kw)
     ikw = {}
@@ -333,6 +426,14 @@ def random_edits(optic, spec, rng, n=None, kinds=None):
             si = rng.choice(cand)
             v = rng.uniform(1.4, 1.9)
             optic.set_index(v, si)
+        elif k == 'image_index':
+            # the medium behind the LAST lens surface (immersed detector, model eye)
+            si = ns
+            if optic.surface_group.surfaces[si].is_reflective:
+                continue
+            v = rng.uniform(1.2, 1.7)
+            optic.set_index(v, si)
+            k = 'index'
         elif k == 'radius':
             v = rng.uniform(30.0, 200.0) * rng.choice([-1, 1])
             optic.set_radius(v, si)
